@@ -182,6 +182,11 @@ fn step<F: Flavour>(st: &mut St<F>, op: &COp, stats: &mut Stats) -> Result<(), (
                 if r != want {
                     return fail("map:index", format!("g[{k}] has value id {r}, member has {want}"));
                 }
+                if let Some(n) = F::g_index_ref(st.g(), *k) {
+                    if F::vid(&n) != want {
+                        return fail("map:index", format!("g[&{k}] has value id {}, member has {want}", F::vid(&n)));
+                    }
+                }
             }
         }
         COp::Contains { k } => {
